@@ -239,6 +239,129 @@ def eof_feature(text):
 
 
 # ---------------------------------------------------------------------------------------------
+# the exact class of L6 (Props/C01_errors_iff.lean, `OpenEscape`), decided on the TEXT by an independent scanner of the
+# June-2018 lexical grammar (with the pinned readings LA1, LA3, LA4): complete tokens and ignored runs, then a quote that
+# does not open a block string, complete string characters, and an escape sequence cut off by the end of the text.
+
+_PUNCT = set("!$()[]{}:=@|&")
+_HEX = set("0123456789abcdefABCDEF")
+_DIG = set("0123456789")
+_NAME0 = set("abcdefghijklmnopqrstuvwxyzABCDEFGHIJKLMNOPQRSTUVWXYZ_")
+
+
+def open_escape(text):
+    """True iff `text` ends inside an open quoted string with a truncated escape (the text-level predicate OpenEscape)."""
+    i, n = 0, len(text)
+    while i < n:
+        c = text[i]
+        if c in "\ufeff\t \n\r,":
+            i += 1
+        elif c == "#":
+            i += 1
+            while i < n and (text[i] >= " " or text[i] == "\t") and text[i] not in "\n\r":
+                i += 1
+        elif c in _PUNCT:
+            i += 1
+        elif c == ".":
+            if text[i:i + 3] != "...":
+                return False
+            i += 3
+        elif text[i:i + 3] == '"""':
+            i += 3
+            while True:
+                if i >= n:
+                    return False
+                if text[i:i + 3] == '"""':
+                    i += 3
+                    break
+                if text[i:i + 4] == '\\"""':
+                    i += 4
+                elif text[i] >= " " or text[i] in "\t\n\r":
+                    i += 1
+                else:
+                    return False
+        elif c == '"':
+            i += 1
+            while True:
+                if i >= n:
+                    return False                      # unterminated, but not inside an escape: reported at len
+                d = text[i]
+                if d == '"':
+                    i += 1
+                    break
+                if d == "\\":
+                    if i + 1 >= n:
+                        return True                   # `\` then the end
+                    e = text[i + 1]
+                    if e in '"\\/bfnrt':
+                        i += 2
+                    elif e == "u":
+                        hs = text[i + 2:i + 6]
+                        if len(hs) < 4:
+                            return all(h in _HEX for h in hs)      # `\u` + 0..3 hex digits then the end
+                        if not all(h in _HEX for h in hs):
+                            return False
+                        i += 6
+                    else:
+                        return False
+                elif d in "\n\r" or not (d >= " " or d == "\t"):
+                    return False
+                else:
+                    i += 1
+        elif c == "-" or c in _DIG:
+            if c == "-":
+                i += 1
+                if i >= n or text[i] not in _DIG:
+                    return False
+            if text[i] == "0":
+                i += 1
+                if i < n and text[i] in _DIG:
+                    return False
+            else:
+                while i < n and text[i] in _DIG:
+                    i += 1
+            if i < n and text[i] == ".":
+                i += 1
+                if i >= n or text[i] not in _DIG:
+                    return False
+                while i < n and text[i] in _DIG:
+                    i += 1
+            if i < n and text[i] in "eE":
+                i += 1
+                if i < n and text[i] in "+-":
+                    i += 1
+                if i >= n or text[i] not in _DIG:
+                    return False
+                while i < n and text[i] in _DIG:
+                    i += 1
+            if i < n and text[i] in _NAME0:
+                return False
+        elif c in _NAME0:
+            while i < n and (text[i] in _NAME0 or text[i] in _DIG):
+                i += 1
+        else:
+            return False
+    return False
+
+
+def oracle_beyond_end(ctx, t, r):
+    """error position = len + 1  <=>  OpenEscape(text)   (theorem error_position_iff_open_escape)"""
+    def odd(x):
+        q = real_lex(x)
+        return q[0] == "syntax" and isinstance(q[1], int) and ((q[1] == len(x) + 1) != open_escape(x))
+    if not odd(t):
+        ctx.stat("beyond-end:%s" % ("open-escape" if r[1] == len(t) + 1 else "within"))
+        return
+    t2 = shrink(t, odd)
+    q = real_lex(t2)
+    way = "reported-beyond-but-not-open-escape" if q[1] == len(t2) + 1 else "open-escape-but-reported-within"
+    ctx.fail("beyond-end-iff-open-escape:%s:%s" % (way, classes(t2)),
+             "the lexer reports position len+1 for a text that does not end inside an open quoted string with a truncated "
+             "escape, or the converse (position %r, len %d)" % (q[1], len(t2)),
+             {"part": PART, "kind": "lex", "text": cps(t2)})
+
+
+# ---------------------------------------------------------------------------------------------
 # oracle O1 + correspondence on one batch of texts
 
 def check_texts(ctx, texts, stream, compare_model=True, error_contract=True):
@@ -261,6 +384,7 @@ def check_texts(ctx, texts, stream, compare_model=True, error_contract=True):
                 ctx.nontrivial(("lexerr", t))
             if error_contract:
                 oracle_error_contract(ctx, t, r)
+                oracle_beyond_end(ctx, t, r)
         else:
             t2 = shrink(t, lambda x: real_lex(x) == r)
             ctx.fail("internal:%s:%s" % (r[1], classes(t2)), "lexer raises %s instead of GraphQLSyntaxError" % r[1],
@@ -1378,6 +1502,8 @@ def replay(ctx, data):
     if r[0] == "internal":
         return False
     if r[0] == "syntax" and (r[2] or not (0 <= r[1] <= len(text))):
+        return False
+    if r[0] == "syntax" and isinstance(r[1], int) and (r[1] == len(text) + 1) != open_escape(text):
         return False
     if kind == "lexeme" and ctx.driver.available():
         before = len(ctx.found)
